@@ -33,6 +33,41 @@ func pointBits(ps []*object.Point) string {
 	return out
 }
 
+func clonePoints(ps []*object.Point) []*object.Point {
+	out := make([]*object.Point, len(ps))
+	for i, p := range ps {
+		if p != nil {
+			q := *p
+			out[i] = &q
+		}
+	}
+	return out
+}
+
+// pointsOwned: what a query returns belongs to the caller - after the caller has overwritten the
+// returned point objects (and the slice), the same query must still give the original answer.
+func pointsOwned(query func() (any, error), first []*object.Point) string {
+	before := pointBits(first)
+	for i, p := range first {
+		if p != nil {
+			p.SetAlt(-7777.25)
+			_ = p.SetLon(12.5)
+			_ = p.SetLat(-3.25)
+		}
+		if i%2 == 1 {
+			first[i] = nil
+		}
+	}
+	o, again := guard(query)
+	if o != "ok" {
+		return "the repeated query failed: " + o
+	}
+	if pointBits(again.([]*object.Point)) != before {
+		return "the points returned earlier are shared with the library's state (overwriting them changed a later answer)"
+	}
+	return ""
+}
+
 const pointsModified = "the caller's point objects were modified"
 
 func (w Win) realPoints(ps []Pt) ([]*object.Point, []string, bool) {
@@ -204,18 +239,20 @@ func evVertex(t *Tracer, w Win, id ID, sp bool) {
 	var o string
 	var res any
 	op := "VertexExt"
+	query := func() (any, error) { return shape.GetPointOnExtendedSpatialId(rid.String(), enum.Vertex) }
 	if sp {
 		op = "VertexSp"
-		o, res = guard(func() (any, error) { return shape.GetPointOnSpatialId(rid.Sp(), enum.Vertex) })
-	} else {
-		o, res = guard(func() (any, error) { return shape.GetPointOnExtendedSpatialId(rid.String(), enum.Vertex) })
+		query = func() (any, error) { return shape.GetPointOnSpatialId(rid.Sp(), enum.Vertex) }
 	}
+	o, res = guard(query)
 	e := w.ev(op, map[string]any{"id": id.Arr()})
 	e.O, e.Real = o, map[string]any{"id": rid.String()}
 	e.R = []any{}
 	if o == "ok" {
 		out := []any{}
-		for _, p := range res.([]*object.Point) {
+		got := clonePoints(res.([]*object.Point))
+		owned := pointsOwned(query, res.([]*object.Point))
+		for _, p := range got {
 			m, bad := w.projPoint(p.Lon(), p.Lat(), p.Alt(), id.H, id.V)
 			if bad != "" {
 				e.Bad = bad
@@ -225,6 +262,9 @@ func evVertex(t *Tracer, w Win, id ID, sp bool) {
 		}
 		if e.Bad == "" {
 			e.R = out
+		}
+		if owned != "" {
+			e.Bad = owned
 		}
 	} else {
 		e.Bad = "outcome " + o
@@ -237,12 +277,12 @@ func evCentre(t *Tracer, w Win, id ID, sp bool) {
 	var o string
 	var res any
 	op := "CentreExt"
+	query := func() (any, error) { return shape.GetPointOnExtendedSpatialId(rid.String(), enum.Center) }
 	if sp {
 		op = "CentreSp"
-		o, res = guard(func() (any, error) { return shape.GetPointOnSpatialId(rid.Sp(), enum.Center) })
-	} else {
-		o, res = guard(func() (any, error) { return shape.GetPointOnExtendedSpatialId(rid.String(), enum.Center) })
+		query = func() (any, error) { return shape.GetPointOnSpatialId(rid.Sp(), enum.Center) }
 	}
+	o, res = guard(query)
 	e := w.ev(op, map[string]any{"id": id.Arr()})
 	e.O, e.Real = o, map[string]any{"id": rid.String()}
 	e.R = []any{}
@@ -256,6 +296,15 @@ func evCentre(t *Tracer, w Win, id ID, sp bool) {
 		e.Bad = "centre query returned a list of length != 1"
 		t.Emit(e, true)
 		return
+	}
+	if ps[0] != nil {
+		got := clonePoints(ps)
+		if owned := pointsOwned(query, ps); owned != "" {
+			e.Bad = owned
+			t.Emit(e, true)
+			return
+		}
+		ps = got
 	}
 	c := ps[0]
 	K, KA := w.H0+id.H+1, w.V0+id.V+1
